@@ -271,5 +271,11 @@ def downsample(repo, chk):
     chk.expect(len(ys) == 1, 'C20.6c', 'R15', fn.site(ys[0]) if ys else fn.site(), 'ys = [label] * n', 'n labels of that class', 'labels of the down-sampled rows must be [label] * n')
     loops = [n for n in own_nodes(fn.node) if isinstance(n, ast.For) and ast.unparse(n.iter) == 'values']
     chk.expect(len(loops) == 1 and 'np.unique(y, return_counts=True)' in ast.unparse(fn.node), 'C20.6d', 'R13', fn.site(loops[0]) if loops else fn.site(), 'for label in values (np.unique(y))', 'every class is sampled', 'every class of y must be sampled')
+    r = returns(fn)
+    chk.expect(len(r) == 1 and ast.unparse(r[0].value) == '(X_downsampled, y_downsampled)', 'C20.6f', 'R6', fn.site(r[0]) if r else fn.site(), ast.unparse(r[0]) if r else '', 'returns (rows, labels)', 'downsample_dataset must return (X_downsampled, y_downsampled) in this order')
+    acc = [c for c in calls(fn, attr='append') if ast.unparse(c) == 'X_arrays_list.append(X_label_downsample)']
+    cat = [n for n in own_nodes(fn.node) if isinstance(n, ast.Assign) and ast.unparse(n) in ('X_downsampled = np.concatenate(X_arrays_list, axis=0)', 'X_downsampled = np.concatenate(X_arrays_list)', 'X_downsampled = np.vstack(X_arrays_list)')]
+    ycat = [n for n in own_nodes(fn.node) if isinstance(n, ast.Assign) and ast.unparse(n).replace(', axis=0', '') == 'y_downsampled = np.concatenate((y_downsampled, ys))']
+    chk.expect(len(acc) == 1 and len(cat) == 1 and len(ycat) == 1, 'C20.6g', 'R13', fn.site(acc[0]) if acc else fn.site(), 'per class: rows appended, labels concatenated; result = concatenation over the classes', 'the result holds the n rows and n labels of every class', 'the per-class samples and labels must be accumulated and concatenated over all classes')
     g = [n for n in own_nodes(fn.node) if isinstance(n, ast.If) and 'min(counts)' in ast.unparse(n.test) and any(isinstance(x, ast.Raise) for x in n.body)]
     chk.expect(len(g) == 1 and ast.unparse(g[0].test) == 'n > min(counts)', 'C20.6e', 'R14', fn.site(g[0]) if g else fn.site(), ast.unparse(g[0].test) if g else '', 'n larger than the minority class is rejected', 'n > min(counts) must be rejected')
